@@ -466,3 +466,8 @@ def controls(ctx, rep):
     rep.control('R01.c fires on a dropped generic Effect', bool(hits))
     hits = [1 for f in c.elab if 'c01::moves_effect' in f.npath for bb, t in f.terms('drop') if is_payload(t['d']['t'], {'Effect'})]
     rep.control('R01.c quiet when the Effect is moved on', not hits and any('c01::moves_effect' in f.npath for f in c.elab))
+
+
+def thorough_extra(ctx, rep):
+    from rules import witness
+    witness.report(rep, 'W01')
